@@ -29,6 +29,8 @@ def reader_population(n, seed, ndims=(2, 3), payloads=("random", "special", "ext
         if i % 16 == 13:      # scale: 100+ one-cell boxes at level 0, all in one file / spread over 40 files
             g.update(bf=1, maxsz=1, base_blocks=(10, 12) if nd == 2 else (5, 5), nlevels=min(nl, 2),
                      nfiles=[1, 40][(i // 16) % 2], nfields=min(g["nfields"], 3))
+        if i % 16 == 5:       # far from the origin: coordinate / cell size of 1e5 .. 1e7
+            g["origin"] = [rng.choice([1.0e5, -3.0e5, 2.5e6]) for _ in range(nd)]
         if i % 16 == 9 and max_fields >= 8:      # as many fields as real output has; 3-digit component counts
             g["nfields"] = [38, 101][(i // 16) % 2]
         f = dict(ref_ratio_extra=rng.choice([0, 0, 1, 3]), trailing_blank=rng.random() < 0.7,
